@@ -93,6 +93,9 @@ def bodies(tier):
         for w in itertools.product(BODY_ATOMS, repeat=k):
             out.append("<OFX>" + "".join(w) + "</OFX>")
     out += ["<OFX>x</OFX>\r\n", "<OFX>x</OFX>  \n\n"]
+    # texts whose bytes in a one-byte character set happen to be well-formed UTF-8 (and the other way round): what the
+    # header DECLARES decides how the body is read, not what the bytes look like
+    out += ["<OFX>Caf\u00c3\u00a9 \u00c2\u00a35</OFX>", "<OFX>\u00e2\u201a\u00ac</OFX>", "<OFX>\u00c3\u00a9</OFX>", "<OFX>\u00c3\u00a9 and \u00e9</OFX>"]
     return out
 
 
